@@ -60,10 +60,10 @@ func (k regKey) String() string {
 }
 
 type regInfo struct {
-	key              regKey
-	subCall, subRet  int64
-	once, async      bool
-	filter           string
+	key             regKey
+	subCall, subRet int64
+	once, async     bool
+	filter          string
 }
 
 type opRec struct {
